@@ -41,6 +41,7 @@ class Scenario:
             "./src", structured=structured, use_cache=use_cache, extensions=extensions, macros=macros)
         self.raw_files = raw_files or {}   # rel path under proj/ (non-source, e.g. README)
         self.use_cache = True if use_cache is None else use_cache
+        self.extensions = list(extensions) if extensions else ["rs"]
         self.extras = tuple(extras)   # "symlinks", "lockdir", "noconfig"
 
     def materialise(self, work):
